@@ -439,12 +439,13 @@ pub fn cases(tier: Tier, seed: u64) -> Vec<Case> {
         let (oh, ow) = c.conv_out().unwrap();
         c.f * oh * ow * c.ic * c.k.0 * c.k.1
     };
-    let cfgs = pick(conv_lattice(full), if full { 300 } else { 24 }, seed ^ 0xc01, if full { 300 } else { 160 }, &size);
+    let cfgs = pick(conv_lattice(full), if full { 6000 } else { 24 }, seed ^ 0xc01, if full { 400 } else { 160 }, &size);
     for (i, c) in cfgs.into_iter().enumerate() {
         let (oh, ow) = c.conv_out().unwrap();
         let cells = c.f * oh * ow;
         let mut act = if i % 4 == 0 { Act::elementwise()[1 + (i / 4) % 4] } else { Act::Linear };
-        if act.forks() && cells > 6 {
+        if act.forks() && (cells > 6 || c.sd_class().contains("pad>k-1")) {
+            // (padding beyond kernel-1 makes some output cells identically zero: always on the kink)
             act = Act::Tanh;
         }
         if (act == Act::Tanh || act == Act::Sigmoid) && cells * c.ic * c.k.0 * c.k.1 > 60 {
@@ -458,7 +459,7 @@ pub fn cases(tier: Tier, seed: u64) -> Vec<Case> {
         None => usize::MAX,
     };
     let dl: Vec<Cfg> = conv_lattice(full).into_iter().filter(|c| c.d == (1, 1) && c.ih <= 3 && c.iw <= 4 && c.deconv_out().is_some()).collect();
-    let dcfgs = pick(dl, if full { 150 } else { 12 }, seed ^ 0xdec1, if full { 500 } else { 250 }, &dsize);
+    let dcfgs = pick(dl, if full { 2000 } else { 12 }, seed ^ 0xdec1, if full { 600 } else { 250 }, &dsize);
     for (i, c) in dcfgs.into_iter().enumerate() {
         let (oh, ow) = c.deconv_out().unwrap();
         let mut act = if i % 4 == 1 { Act::elementwise()[1 + (i / 4) % 4] } else { Act::Linear };
